@@ -75,7 +75,7 @@ func (rz *Raise) sites(c raiseCtx) []raiseSite {
 
 func ruleC03R1(w *World, r *Report) {
 	const rule = "C03/R1"
-	r.rule(rule, "no panic carrying a *memefish.Error can escape an exported entry point of package memefish: every raising instruction on a call path from the entry point is dominated by a defer whose closure calls recover(), and no recovery handler raises", 20)
+	r.rule(rule, "no panic carrying a *memefish.Error can escape an exported entry point of package memefish: every raising instruction on a call path from the entry point is dominated by a defer whose closure calls recover(), and no recovery handler raises", 10)
 	rz := w.Raise()
 	entries := rz.entryPoints()
 	if len(entries) == 0 {
@@ -144,7 +144,7 @@ func ruleC03R1(w *World, r *Report) {
 // ruleC03R2: recovery discipline.
 func ruleC03R2(w *World, r *Report) {
 	const rule = "C03/R2"
-	r.rule(rule, "every recover() value is only nil-tested, asserted to *Error with the failure branch re-panicking the same value, and on success recorded (appended to Parser.errors or stored in the error result); no handler drops a recovered value or swallows a foreign panic", 10)
+	r.rule(rule, "every recover() value is only nil-tested, asserted to *Error with the failure branch re-panicking the same value, and on success recorded (appended to Parser.errors or stored in the error result); no handler drops a recovered value or swallows a foreign panic", 5)
 	for _, fn := range w.ModFns {
 		for _, rc := range recoverCalls(fn) {
 			construct := "recover() in " + funcName(fn)
@@ -366,7 +366,7 @@ func ruleC03R3(w *World, r *Report) {
 
 func ruleC03R5(w *World, r *Report) {
 	const rule = "C03/R5"
-	r.rule(rule, "the error result of the Parse* entry points is nil or a MultiError made from a non-empty Parser.errors; NextToken/SplitRawStatements return *Error; single-node entry points never return a nil node", 12)
+	r.rule(rule, "the error result of the Parse* entry points is nil or a MultiError made from a non-empty Parser.errors; NextToken/SplitRawStatements return *Error; single-node entry points never return a nil node", 6)
 	rz := w.Raise()
 	errT := types.Universe.Lookup("error").Type()
 	for _, e := range rz.entryPoints() {
